@@ -24,6 +24,7 @@ from lib import typestate
 from lib.facts import Pos, const_val, expr_str, is_call, strip_casts, strip_move, subexprs
 from lib.rules import guard_in_same_iteration, field_name, lvalue_path
 
+ANCHOR_SOURCES = ["props/C27.py"]
 LEVEL = "other"
 EXPLANATION = __doc__
 NOT_DECIDED = ["which exception is rethrown (C05)", "memory held by moodycamel queues", "that the pool stays usable (follows from C08/C27 accounting)"]
